@@ -42,7 +42,23 @@ static COUNTER: AtomicU64 = AtomicU64::new(0);
 
 pub struct Sandbox {
     pub root: String,
+    /// canonical layer directories (what the snapshots walk)
     pub layers: Vec<String>,
+}
+
+/// a non-canonical but equivalent spelling of an absolute directory path (what a caller may pass to LayeredFilesystem::new)
+pub fn decorate(path: &str, style: u8) -> String {
+    match style % 5 {
+        1 => format!("{path}/"),
+        2 => format!("{path}/."),
+        3 => {
+            // .../X  ->  .../X/../X
+            let name = path.rsplit('/').next().unwrap_or("");
+            format!("{path}/../{name}")
+        }
+        4 => path.replacen("/mila-verif-fs", "/./mila-verif-fs", 1),
+        _ => path.to_string(),
+    }
 }
 impl Sandbox {
     pub fn new(nlayers: usize) -> Sandbox {
@@ -72,6 +88,8 @@ pub enum Payload {
     Repeat(u8, u16),
     /// incompressible-ish
     Seeded(u16, u64),
+    /// a payload that is itself a complete valid stream of the given kind (0 = LZ10, 1 = 0x13-wrapped LZ11) of `n` seeded bytes
+    Stream(u8, u16, u64),
 }
 impl Payload {
     pub fn bytes(&self) -> Vec<u8> {
@@ -79,6 +97,10 @@ impl Payload {
             Payload::Raw(v) => v.clone(),
             Payload::Repeat(b, n) => (0..*n as usize).map(|i| b.wrapping_add((i % 7) as u8)).collect(),
             Payload::Seeded(n, s) => Mix64(*s).bytes(*n as usize),
+            Payload::Stream(kind, n, s) => {
+                let inner = Mix64(*s).bytes(*n as usize);
+                reference_compressed(if *kind == 0 { mila::Game::FE9 } else { mila::Game::FE14 }, &inner)
+            }
         }
     }
 }
@@ -89,6 +111,7 @@ pub fn payload_strategy() -> BoxedStrategy<Payload> {
         3 => (any::<u8>(), 4u16..600).prop_map(|(b, n)| Payload::Repeat(b, n)),
         2 => (1u16..400, any::<u64>()).prop_map(|(n, s)| Payload::Seeded(n, s)),
         1 => (4000u16..8192, any::<u64>()).prop_map(|(n, s)| if s % 2 == 0 { Payload::Seeded(n, s) } else { Payload::Repeat(s as u8, n) }),
+        1 => (0u8..2, 0u16..40, any::<u64>()).prop_map(|(k, n, s)| Payload::Stream(k, n, s)),
     ]
     .boxed()
 }
